@@ -223,11 +223,20 @@ func (f *fakeClient) Ping() (*models.PingResult, error) {
 	f.mu.Unlock()
 	if fn != nil {
 		if err := fn(); err != nil {
+			var pe partialPingError
+			if errors.As(err, &pe) {
+				// what the real client.Ping does when gocbcore calls back in time but a service is unhealthy: a
+				// (partly filled) result AND an error
+				return &models.PingResult{MemdEndpoint: "m"}, err
+			}
 			return nil, err
 		}
 	}
 	return &models.PingResult{MemdEndpoint: "m", MgmtEndpoint: "g"}, nil
 }
+
+// partialPingError marks a scripted ping failure that comes with a non-nil result.
+type partialPingError struct{ error }
 
 func (f *fakeClient) DcpClose() { f.mu.Lock(); f.dcpClose++; f.mu.Unlock() }
 func (f *fakeClient) Close()    { f.mu.Lock(); f.close++; f.mu.Unlock() }
